@@ -180,7 +180,7 @@ outer:
 		ls := &layerStats{Name: l.name, What: l.what, Outcomes: map[string]int{}, Total: l.n, Complete: true}
 		stats = append(stats, ls)
 		first := (shard - base%nw + nw) % nw // first i with (base+i)%nw == shard
-		t0 := time.Now()
+		t0 := cpuNow()
 		for i := first; i < l.n; i += nw {
 			gi := base + i
 			if gi < start {
@@ -189,7 +189,7 @@ outer:
 			if time.Now().After(deadline) {
 				capped = fmt.Sprintf("deadline in layer %s at program %d of %d", l.name, i, l.n)
 				ls.Complete = false
-				ls.CPU = time.Since(t0).Seconds()
+				ls.CPU = cpuNow() - t0
 				for _, l2 := range layers[li+1:] {
 					stats = append(stats, &layerStats{Name: l2.name, What: l2.what, Outcomes: map[string]int{}, Total: l2.n})
 				}
@@ -233,7 +233,7 @@ outer:
 			}
 		}
 		base += l.n
-		ls.CPU = time.Since(t0).Seconds()
+		ls.CPU = cpuNow() - t0
 	}
 	if slot != nil {
 		binary.LittleEndian.PutUint64(slot[0:], 0)
@@ -245,6 +245,13 @@ outer:
 	sort.Strings(sl)
 	enc.Encode(wmsg{T: "done", Stats: stats, Sigs: sl, Counts: counts, Capped: capped})
 	out.Flush()
+}
+
+// cpuNow returns the CPU seconds (user+system) this process has consumed.
+func cpuNow() float64 {
+	var ru syscall.Rusage
+	syscall.Getrusage(syscall.RUSAGE_SELF, &ru)
+	return float64(ru.Utime.Sec) + float64(ru.Utime.Usec)/1e6 + float64(ru.Stime.Sec) + float64(ru.Stime.Usec)/1e6
 }
 
 // signature: a coarse behaviour class of a case, for the non-vacuity statistics.
